@@ -9,6 +9,10 @@ ENGINES = [
      "kind_free_text": "canonical forms of expression trees: polynomials/rational functions over Q in atoms with I^2=-1, sin^2->1-cos^2, sqrt^2, exp laws; equality by cross multiplication; no sampling, no solver"},
     {"name": "INDEX", "path": "sa/domains/index.py", "serves_properties": ["C04"],
      "kind_free_text": "affine x parity abstract domain for centre/offset expressions; decides //2, ceil(/2), floor(/2) identities for all lengths by enumerating parity classes"},
+    {"name": "KERNEL", "path": "sa/domains/kernel.py", "serves_properties": ["C01", "C02", "C03", "C05"],
+     "kind_free_text": "symbolic vectors/outer matrices over index atoms; DFT and chirp-Z kernels become canonical rational functions compared with the textbook kernel per axis"},
+    {"name": "ORIGIN", "path": "sa/domains/origin.py", "serves_properties": ["C01", "C02"],
+     "kind_free_text": "origin/phase-ramp typestate of fftshift/ifftshift/fft2/ifft2 pipelines per parity class"},
     {"name": "INTERP", "path": "sa/core/interp.py", "serves_properties": ["C17"],
      "kind_free_text": "abstract interpreter over the Python subset prysm uses; pluggable domains; path enumeration; abstract inlining of resolved prysm callees"},
 ]
@@ -35,8 +39,34 @@ CLAIMS["C04"] = {
     "note": TRUST + "the origin convention 'index n//2' of the property; INDEX transfer functions for arange/zeros/slices/np.pad argument capture (sa/domains/index.py).",
 }
 
+KTRUST = TRUST + "KERNEL domain (coordinate vectors as expressions in index atoms, np.outer/np.exp/broadcast multiplies/piecewise stores, sa/domains/kernel.py); the textbook per-axis DFT kernel and Bluestein identity as the oracle (sa/rules/ftkernels.py); "
+CLAIMS["C01"] = {
+    "engine": "KERNEL",
+    "technique": "static analysis: abstract interpretation of the executors into symbolic kernels (NORM normal forms over index atoms) compared with the textbook kernel per axis for all 16 parity classes; ORIGIN typestate for the FFT route; AST/def-use rules for memo-key completeness and cache immutability",
+    "text": "Decides from the source, for all shapes/Q/shifts/output sizes at once: (kernel) each matrix-DFT basis is exp(-/+2 pi i (i-N//2)(t-M//2-shift)/(N_k Q_k)) per axis in the right position, both directions; (chirp) the chirp-Z pre-chirp, three filter segments and post-chirp are the Bluestein factors of the same kernel with alpha_k=1/(N_k Q_k), lag offset N//2-M//2-shift, for every odd/even combination of input and output length; per-axis vectors multiply along their own axis, FFT sizes/crops per axis; inverse chirp-Z = conj.czt.conj; (origin) the FFT route is centred->centred with no phase ramp for odd and even lengths; (cache) memo keys contain every argument, the direction and the precision, memos are filled/cleared together and never mutated in place, which gives independence from call history; both method strings dispatch with identical arguments. A requested shift may change the result by a pure phase only (unit-modulus obligations). Not decided: float agreement of the routes to round-off.",
+    "note": KTRUST + "ORIGIN typestate (sa/domains/origin.py); shift documented as (X, Y).",
+}
+CLAIMS["C02"] = {
+    "engine": "KERNEL",
+    "technique": "static analysis: ORIGIN/INDEX event extraction for FFT normalisation and zero padding; KERNEL/NORM normal forms for the matrix-DFT kernels, normalisation and the free-space transfer function; structural (dataflow-origin) rule for angular_spectrum",
+    "text": "Decides: focus/unfocus use fft2/ifft2 with norm='ortho' and no size argument (unitary, mutually inverse); both pad through pad2d's zero default and pad2d(constant,0) is zeros plus exactly one copy of the input (energy unchanged by padding); forward and inverse matrix-DFT kernels are conjugate with normalisation sqrt(1/(N Q)) per axis (so the band-complete pair is the identity); the free-space transfer function is exp(-i pi lambda z (kx^2+ky^2)) with unit modulus and a phase that is linear-homogeneous in z (energy conservation, identity at 0, inverse at -z, additivity, for all wavelengths/spacings/distances) and angular_spectrum is ifft2(fft2(field)*tf) with matching normalisation on both of its paths. Not decided: float round-off; aliasing.",
+    "note": KTRUST + "FFT semantics of norm='ortho'; DFT orthogonality on the band-complete grid.",
+}
+CLAIMS["C03"] = {
+    "engine": "KERNEL",
+    "technique": "static analysis: NORM equality of the spacing formulas and of every phase argument with the textbook expression under the documented units; KERNEL comparison of the fixed-sampling kernels with the physical kernel per axis and parity class",
+    "text": "Decides: Q_for_sampling == lambda z/(D dx_out); pupil<->psf spacing formulas == lambda f/(N dx) and are exact inverses; both fixed-sampling engines have per-axis kernel frequency 2 pi dx_in dx_out/(lambda f) (independent of array length) and an output grid translated by exactly shift/dx_out samples along the documented axis; phase arguments of from_amp_and_phase/phase_screen/thin_lens/free space equal the dimensionless textbook phases under the documented nm/um/mm units; Wavefront wrappers pass spacings in the right roles and report the requested dx; the dx reported by the FFT route equals lambda f/(N_k dx) per axis (two recorded known findings: scalar dx for non-square arrays). Not decided: where sampled (aliased) tilts land.",
+    "note": KTRUST + "documented units of the docstrings; known findings listed in known_findings.json.",
+}
+CLAIMS["C05"] = {
+    "engine": "KERNEL",
+    "technique": "static analysis: KERNEL comparison of the fixed-sampling kernels with the physical kernel per axis (array-length free => embedding invariant; same formula on both axes => transposition covariant); origin-chain (dataflow) structure rules for mask-and-back and Babinet",
+    "text": "Decides: for both engines and both directions the kernel of axis k is exp(-/+2 pi i dx_in dx_out i t/(lambda f)) with no dependence on the array length (so N_k Q_k is invariant under zero-padding and the two axes are transposes of one formula), for all parity classes; to_fpm_and_back is unfocus(focus(w)*fpm) with mutually inverse kernels, centred grids and the method passed through (one recorded known finding: the return trip with a non-zero shift); babinet is [lyot*](field - to_fpm_and_back(field, 1-fpm)). Linearity is structural (matrix products of the input). Not decided: equality to round-off.",
+    "note": KTRUST + "known finding for the shifted return trip (known_findings.json).",
+}
+
 NOT_APPLICABLE = {
     "C11": "index bijections are float sqrt/ceil algebra on the index; their failure mode is a rounding event at particular j and the deciding step named by the property (exhaustive j <= 1e5) is execution; no finite static abstraction of j decides it (DESIGN.md section 4, C11)",
 }
-for _p in ("C01 C02 C03 C05 C06 C07 C08 C09 C10 C12 C13 C14 C15 C16 C18 C19").split():
+for _p in ("C06 C07 C08 C09 C10 C12 C13 C14 C15 C16 C18 C19").split():
     NOT_APPLICABLE[_p] = "check not delivered yet in this revision of /verif (design in DESIGN.md section 4); will be claimed only through the structural clauses named there once its rule module exists"
